@@ -32,6 +32,9 @@ type situParams struct {
 	Mode     string `json:"mode"`
 	Index    int    `json:"index"`
 	Thorough bool   `json:"thorough,omitempty"`
+	// Script "" = the standard phases (turnstone / reference block / balances); "reassign" = the
+	// orphan re-assignment history of situ_reassign.go.
+	Script string `json:"script,omitempty"`
 }
 
 const (
@@ -68,6 +71,7 @@ type tracked struct {
 	proofs                map[string]situProof
 	est                   []estimateSub
 	elected               uint64
+	lateEst               int // estimates accepted after the election was observed
 	gasStuckReported      bool
 	gasQuorumBlocks       int
 	quorumBlocks          int
@@ -650,6 +654,7 @@ func (s *situ) estimateTx(m *tracked, who *chain.Account, v uint64) qtx {
 			}
 			if m.elected != 0 {
 				s.rec.Count("situ_late_estimates_after_election", 1)
+				m.lateEst++
 			}
 			m.est = append(m.est, estimateSub{val: val, value: v})
 			if _, member := s.snap.shares[val]; !member {
@@ -1040,70 +1045,10 @@ func runSitu(c fw.Case, rec *fw.Recorder) {
 	s.discover()
 	s.block()
 
-	changeAt := r.Intn(3) // after which phase the validator set changes (2 = never before the end)
-
-	// phase T: turnstone (update-valset) messages: gas estimates, then evidence
-	for i, m := range s.pending(kindTurnstone) {
-		s.gasEpisode(m, (p.Index+i)%3)
-	}
-	for _, m := range s.pending(kindTurnstone) {
-		s.evidenceEpisode(m)
-	}
-	if changeAt == 0 {
-		s.snapshotChange()
-		for i, m := range s.pending(kindTurnstone) { // the superseding update-valset messages
-			s.gasEpisode(m, (p.Index+i+1)%3)
-			s.evidenceEpisode(m)
-		}
-	}
-
-	// phase R: reference-block messages, one chain after the other; a chain with an undecided
-	// reference-block message gets no further one (heights must keep increasing)
-	for round := 0; round < 2 && !s.failed; round++ {
-		for _, cr := range situChains {
-			blocked := false
-			for _, m := range s.pending(kindRefBlock) {
-				if m.chainRef == cr {
-					blocked = true
-				}
-			}
-			if blocked {
-				continue
-			}
-			s.note("scheduling reference-block request for %s (keeper function of the evm end-blocker)", cr)
-			if err := ch.App.EvmKeeper.ScheduleReferenceBlockForChain(ch.Ctx(), cr); err != nil {
-				rec.Inconclusive("ScheduleReferenceBlockForChain: " + err.Error())
-				return
-			}
-			s.block()
-			for _, m := range s.pending(kindRefBlock) {
-				if m.chainRef == cr && len(m.evid) == 0 {
-					s.evidenceEpisode(m)
-				}
-			}
-		}
-	}
-	if changeAt == 1 {
-		s.snapshotChange()
-		// undecided messages are re-tallied with the new snapshot; give them more evidence too
-		for _, m := range s.pending(kindRefBlock) {
-			s.completeWith(m)
-		}
-	}
-
-	// phase B: validator-balances messages scheduled by the real evm end-blocker at height 300
-	if ch.Height < 300 {
-		s.skipTo(300)
-		s.block()
-	}
-	for _, m := range s.pending(kindBalances) {
-		s.evidenceEpisode(m)
-	}
-	if changeAt == 2 && r.Intn(2) == 0 {
-		s.snapshotChange()
-		for _, m := range s.pending(kindBalances) {
-			s.completeWith(m)
-		}
+	if p.Script == "reassign" {
+		s.scriptReassign(p)
+	} else {
+		s.standardPhases(p)
 	}
 	s.block()
 	s.block()
@@ -1131,6 +1076,84 @@ func runSitu(c fw.Case, rec *fw.Recorder) {
 			h = h[:40]
 		}
 		rec.Sample(map[string]any{"part": "in-situ", "stakes": stakes, "outsiders": nOut, "first_steps": h})
+	}
+}
+
+// standardPhases: turnstone messages (gas estimates, evidence), reference blocks, balances, with one
+// change of the validator set somewhere in between.
+func (s *situ) standardPhases(p situParams) {
+	r := s.r
+	changeAt := r.Intn(3) // after which phase the validator set changes (2 = never before the end)
+
+	// phase T: turnstone (update-valset) messages: gas estimates, then evidence
+	for i, m := range s.pending(kindTurnstone) {
+		s.gasEpisode(m, (p.Index+i)%3)
+	}
+	if p.Index%2 == 1 {
+		// every second history: the orphan housekeeping runs between the elections (with their late
+		// estimates) and the relay; no randomness is drawn, the episodes below stay as they are
+		s.housekeeping(1)
+		s.block()
+	}
+	for _, m := range s.pending(kindTurnstone) {
+		s.evidenceEpisode(m)
+	}
+	if changeAt == 0 {
+		s.snapshotChange()
+		for i, m := range s.pending(kindTurnstone) { // the superseding update-valset messages
+			s.gasEpisode(m, (p.Index+i+1)%3)
+			s.evidenceEpisode(m)
+		}
+	}
+
+	// phase R: reference-block messages, one chain after the other; a chain with an undecided
+	// reference-block message gets no further one (heights must keep increasing)
+	for round := 0; round < 2 && !s.failed; round++ {
+		for _, cr := range situChains {
+			blocked := false
+			for _, m := range s.pending(kindRefBlock) {
+				if m.chainRef == cr {
+					blocked = true
+				}
+			}
+			if blocked {
+				continue
+			}
+			s.note("scheduling reference-block request for %s (keeper function of the evm end-blocker)", cr)
+			if err := s.ch.App.EvmKeeper.ScheduleReferenceBlockForChain(s.ch.Ctx(), cr); err != nil {
+				s.rec.Inconclusive("ScheduleReferenceBlockForChain: " + err.Error())
+				s.failed = true
+				return
+			}
+			s.block()
+			for _, m := range s.pending(kindRefBlock) {
+				if m.chainRef == cr && len(m.evid) == 0 {
+					s.evidenceEpisode(m)
+				}
+			}
+		}
+	}
+	if changeAt == 1 {
+		s.snapshotChange()
+		// undecided messages are re-tallied with the new snapshot; give them more evidence too
+		for _, m := range s.pending(kindRefBlock) {
+			s.completeWith(m)
+		}
+	}
+
+	// phase B: validator-balances messages scheduled by the real evm end-blocker at height 300
+	if s.ch.Height < 300 {
+		s.skipTo(300)
+		s.block()
+	}
+	for _, m := range s.pending(kindBalances) {
+		s.evidenceEpisode(m)
+	}
+	if changeAt == 2 && r.Intn(2) == 0 {
+		s.snapshotChange()
+		for _, m := range s.pending(kindBalances) {
+			s.completeWith(m)
+		}
 	}
 }
 
